@@ -211,14 +211,18 @@ def vAckInternal (p : Ack) (s : Option Settings) : VRes := do
   sizeCheck (ackLengths p) s
   okIf (p.packetId ≠ 0)
 
-def vPublishInternal (p : Publish) (s : Option Settings) (r : Option Resolution) : VRes := do
-  sizeCheck (publishLengths5 p (r.getD {})) s
+/-- the send-time checks of a PUBLISH whose encoded lengths are `lengths` -/
+def vPublishInternalWith (lengths : Option (Nat × Nat)) (p : Publish) (s : Option Settings) : VRes := do
+  sizeCheck lengths s
   okIf (!(p.packetId = 0 && p.qos ≠ 0))
   match s with
   | none => .error .panicNoSettings
   | some st => do
     okIf (!(p.retain && !st.retainAvailable))
     okIf (p.qos ≤ st.maximumQos)
+
+def vPublishInternal (p : Publish) (s : Option Settings) (r : Option Resolution) : VRes :=
+  vPublishInternalWith (publishLengths5 p (r.getD {})) p s
 
 def vSubscribeInternal (p : Subscribe) (s : Option Settings) : VRes := do
   sizeCheck (subscribeLengths5 p) s
